@@ -25,6 +25,28 @@ POOL_DEFAULT = {"client_encoding": "UTF8", "DateStyle": "ISO, MDY", "TimeZone": 
                 "standard_conforming_strings": "on", "application_name": "pgcat"}
 MOCK_STARTUP = dict(POOL_DEFAULT, IntervalStyle="postgres", server_version="14.0 (mock)", server_encoding="UTF8",
                     integer_datetimes="on", is_superuser="off")
+MOCK_READONLY = [("server_version", "14.0 (mock)"), ("server_encoding", "UTF8"), ("integer_datetimes", "on"), ("is_superuser", "off")]
+MOCK_SETTABLE = dict(POOL_DEFAULT, IntervalStyle="postgres")
+
+
+def conn_reports(params, conn):
+    """what the mock backend with `c12_params` = params reports at the startup of its connection `conn`
+    (= that session's defaults and read-only parameters), as an ordered list of (name, value)"""
+    d = dict(MOCK_SETTABLE)
+    ro = list(MOCK_READONLY)
+    layers = [params or {}, ((params or {}).get("by_conn") or {}).get(str(conn)) or {}]
+    for layer in layers:
+        for k, v in (layer.get("defaults") or {}).items():
+            d[k] = v
+        for k, v in (layer.get("readonly") or {}).items():
+            for i, (n, _) in enumerate(ro):
+                if n == k:
+                    ro[i] = (k, v); break
+            else:
+                ro.append((k, v))
+    return sorted(d.items()) + ro
+
+
 UNTRACKED = ["statement_timeout", "search_path", "IntervalStyle", "work_mem"]
 INVALID = "!invalid!"
 PREAMBLE = "From PV Require Import Params.Model.\nFrom Coq Require Import NArith List String. Import ListNotations.\nOpen Scope N_scope."
@@ -167,12 +189,53 @@ def spell(rng, key):
     return rng.choice([key, key, key.lower(), key.upper()])
 
 
+def gen_backends(rng, kind):
+    """two servers of one shard (primary + replica) whose reports differ: kind = "readonly" (server_version, in_hot_standby,
+    is_superuser, session_authorization, server_encoding, integer_datetimes), "defaults" (session defaults of tracked GUCs and
+    IntervalStyle) or "both"; with probability 0.4 also a per-connection difference (connection 2 after a minor upgrade)"""
+    out = []
+    versions = rng.sample(["15.3", "14.9", "16.1 (Debian 16.1-1)", "13.14"], 2)
+    for i in range(2):
+        ro, d = {}, {}
+        if kind in ("readonly", "both"):
+            ro["server_version"] = versions[i]
+            if i == 1 or rng.random() < 0.3:
+                ro["in_hot_standby"] = "on" if i == 1 else "off"
+            if rng.random() < 0.4:
+                ro["is_superuser"] = rng.choice(["on", "off"])
+            if rng.random() < 0.3:
+                ro["session_authorization"] = "u%d" % i
+            if rng.random() < 0.25:
+                ro["server_encoding"] = rng.choice(["LATIN1", "SQL_ASCII"])
+            if rng.random() < 0.15:
+                ro["integer_datetimes"] = "off"
+        if kind in ("defaults", "both"):
+            for k, vals in (("TimeZone", ["Europe/Berlin", "America/New_York"]), ("DateStyle", ["SQL, DMY", "German, DMY"]),
+                            ("client_encoding", ["LATIN1", "SQL_ASCII"]), ("standard_conforming_strings", ["off"]), ("IntervalStyle", ["iso_8601"])):
+                if rng.random() < 0.45:
+                    d[k] = rng.choice(vals)
+            if not d:
+                d["TimeZone"] = "Europe/Berlin" if i == 0 else "Asia/Tokyo"
+        p = {}
+        if ro:
+            p["readonly"] = ro
+        if d:
+            p["defaults"] = d
+        if rng.random() < 0.4:
+            p["by_conn"] = {"2": {"readonly": {"server_version": versions[i] + ".1"}}}
+            if kind != "readonly" and rng.random() < 0.5:
+                p["by_conn"]["2"]["defaults"] = {"DateStyle": "Postgres, MDY"}
+        out.append({"name": "b%d" % i, "params": p})
+    return out
+
+
 class Scn:
     """one scenario: clients with startup packets, a script of client operations, canaries"""
 
-    def __init__(self, rng, pool_size, nclients, nops, classes=(), maxlen=400, mode="transaction"):
+    def __init__(self, rng, pool_size, nclients, nops, classes=(), maxlen=400, mode="transaction", backends=None):
         self.pool_size = pool_size
         self.mode = mode      # pool_mode of the pool: "transaction" | "session"
+        self.backends = backends or [{"name": "b0", "params": None}]     # servers of the shard (primary, replicas)
         self.clients = []     # dict(name, pairs[(k,v) bytes], flags set)
         self.ops = []         # ("q", ci, [stmt dict]) | ("x", ci, how)
         self.flags = set()
@@ -332,11 +395,20 @@ class Scn:
         for c in self.clients:
             self.flags |= c["flags"]
 
+    @property
+    def het(self):
+        return len(self.backends) > 1 or self.backends[0]["params"] is not None
+
+    @property
+    def ncanary(self):
+        return 0 if self.het else self.pool_size
+
     # -- wire scenario
     def wire(self):
-        toml = W.make_toml(general={"connect_timeout": 10000}, pools={"db": {"opts": {"pool_mode": self.mode},
+        servers = [[b["name"], "primary" if i == 0 else "replica"] for i, b in enumerate(self.backends)]
+        toml = W.make_toml(general={"connect_timeout": 10000}, pools={"db": {"opts": {"pool_mode": self.mode, "default_role": "any"},
                                                                             "users": [{"username": "u", "password": "pw", "pool_size": self.pool_size}],
-                                         "shards": [{"database": "db0", "servers": [["b0", "primary"]]}]}})
+                                         "shards": [{"database": "db0", "servers": servers}]}})
         steps = []
         for c in self.clients:
             steps.append({"op": "connect", "c": c["name"], "raw_startup": startup_hex(c["pairs"]), "password": "pw",
@@ -353,29 +425,37 @@ class Scn:
             else:
                 steps.append({"op": "close", "c": c["name"]})
         # canaries: one per pool slot, all holding a server at the same time => every check-in is over
-        for i in range(self.pool_size):
+        # (several servers: a canary cannot choose its server; wait until no connection is in use instead)
+        if self.het:
+            steps.append({"op": "wait_inuse", "n": 0, "timeout_ms": 10000})
+        for i in range(self.ncanary):
             z = "z%d" % i
             steps.append({"op": "connect", "c": z, "raw_startup": startup_hex([(b"user", b"u"), (b"database", b"db")]),
                           "password": "pw", "params": {"user": "u"}, "timeout_ms": 8000})
             steps.append({"op": "send", "c": z, "msgs": [{"t": "Q", "sql": "BEGIN /*c12:%s:1*/" % z}]})
             steps.append({"op": "recv", "c": z, "until": "Z", "timeout_ms": 15000})
-        return {"backends": [{"name": "b0"}], "toml": toml, "steps": steps, "log_out": True}
+        bk = [dict({"name": b["name"]}, **({"c12_params": b["params"]} if b["params"] is not None else {})) for b in self.backends]
+        return {"backends": bk, "toml": toml, "steps": steps, "log_out": True}
 
     def sent_sql(self):
         m = {}
         for op in self.ops:
             if op[0] == "q":
                 m[b";".join(s["sql"] for s in op[2]).decode("utf-8")] = op
-        for i in range(self.pool_size):
+        for i in range(self.ncanary):
             m["BEGIN /*c12:z%d:1*/" % i] = ("z", i)
         return m
+
+    def srv_id(self, who, conn):
+        """one number per server connection: 100 * (index of the backend) + its connection id"""
+        return 100 * [b["name"] for b in self.backends].index(who) + conn
 
     def to_json(self):
         def st(x):
             d = dict(x)
             d["sql"] = x["sql"].hex()
             return d
-        return {"pool_size": self.pool_size, "mode": self.mode,
+        return {"pool_size": self.pool_size, "mode": self.mode, "backends": self.backends,
                 "clients": [{"name": c["name"], "pairs": [[k.hex(), v.hex()] for k, v in c["pairs"]], "flags": sorted(c["flags"])} for c in self.clients],
                 "ops": [[o[0], o[1], [st(x) for x in o[2]] if o[0] == "q" else o[2]] for o in self.ops]}
 
@@ -383,6 +463,7 @@ class Scn:
     def from_json(j):
         s = Scn.__new__(Scn)
         s.pool_size, s.rng, s.maxlen, s.flags, s.mode = j["pool_size"], None, 0, set(), j.get("mode", "transaction")
+        s.backends = j.get("backends") or [{"name": "b0", "params": None}]
         s.clients = [{"name": c["name"], "pairs": [(bytes.fromhex(k), bytes.fromhex(v)) for k, v in c["pairs"]], "flags": set(c["flags"]),
                       "alive": True, "txn": "I", "n": 0} for c in j["clients"]]
         s.ops = []
@@ -396,7 +477,7 @@ class Scn:
         return s
 
     def describe(self):
-        return {"pool_size": self.pool_size, "pool_mode": self.mode,
+        return {"pool_size": self.pool_size, "pool_mode": self.mode, "servers": self.backends,
                 "clients": [{"name": c["name"], "startup": [[k.decode("latin1"), v.decode("utf-8", "replace")[:200]] for k, v in c["pairs"]]} for c in self.clients],
                 "ops": [[self.clients[o[1]]["name"], [s["sql"].decode("utf-8", "replace")[:300] for s in o[2]]] if o[0] == "q"
                         else [self.clients[o[1]]["name"], o[2]] for o in self.ops]}
@@ -440,6 +521,7 @@ class Obs:
         sent = scn.sent_sql()
         names = {c["name"]: c for c in scn.clients}
         evs = res.get("events", [])
+        self.barrier_failed = any(e.get("ev") == "wait_inuse_timeout" for e in evs)
         cur = {}                # conn -> last client item awaiting its `out`
         counters = {}
         pend_sync = {}
@@ -454,7 +536,7 @@ class Obs:
                                                          "outcome": e.get("outcome"),
                                                          "Z": [f.get("status") for f in e["frames"] if f["t"] == "Z"]})
             elif evk == "msg" and e.get("tag") == "Q":
-                conn = e["conn"]
+                conn = scn.srv_id(who, e["conn"])
                 sql = e["detail"].get("sql", "")
                 tl = self.timeline.setdefault(conn, [])
                 scs_off = e["tracked"].get("standard_conforming_strings") == "off"
@@ -490,11 +572,11 @@ class Obs:
                         self.problems.append(("injection", "pgcat sent a statement that is none of its own forms to connection %s: %r" % (conn, sql[:300]), None))
                         tl.append({"t": "other", "sql": sql})
             elif evk == "out":
-                it = cur.get(e["conn"])
+                it = cur.get(scn.srv_id(who, e["conn"]))
                 if it is not None:
                     it["out_S"].extend(decode_out_frames(e["hex"]))
         # every scripted recv must have ended at its ReadyForQuery (otherwise the script ran out of step: inconclusive)
-        self.sane = all(r["outcome"] == "ok" for rs in self.replies.values() for r in rs)
+        self.sane = all(r["outcome"] == "ok" for rs in self.replies.values() for r in rs) and not self.barrier_failed
         # merge ROLLBACK + RESET that belong to one check-in
         for conn, tl in self.timeline.items():
             out = []
@@ -506,9 +588,10 @@ class Obs:
             self.timeline[conn] = out
 
 
-def spec_est_startup(pairs):
-    """what the client established with its startup packet (PostgreSQL: names case-insensitive)"""
-    est = dict(POOL_DEFAULT)
+def spec_est_startup(pairs, told=None):
+    """what the client established with its startup packet (PostgreSQL: names case-insensitive); for the parameters
+    it did not send: the values it was told at startup (the pool's snapshot of the server validated last)"""
+    est = {k: (told or POOL_DEFAULT).get(k) for k in TRACKED}
     for k, v in pairs:
         ck = LOWER2CANON.get(k.decode("latin1").lower())
         if ck:
@@ -520,16 +603,20 @@ def monitors(scn, obs):
     """the property itself, evaluated on what clients and backend saw; no model involved"""
     probs = list(obs.problems)
     setter = {}      # (conn, guc) -> (client, epoch, in_txn)
+    snapshots = [{k: v for k, v in conn_reports(b["params"], 1) if k in TRACKED} for b in scn.backends]
     for c in scn.clients:
         name = c["name"]
         st = obs.startup.get(name)
-        est = spec_est_startup(c["pairs"])
         if st is None or not st["ok"]:
             probs.append(("startup-refused", "client %s with startup %r was not admitted (%s)" % (name, [(k.decode('latin1'), v.decode('utf-8', 'replace')[:40]) for k, v in c["pairs"]], st and st.get("err")), c["flags"]))
             continue
+        est = spec_est_startup(c["pairs"], st["S"])
+        sent_keys = {LOWER2CANON.get(k.decode("latin1").lower()) for k, _ in c["pairs"]}
         for k in TRACKED:
-            if st["S"].get(k) != est[k]:
+            if k in sent_keys and st["S"].get(k) != est[k]:
                 probs.append(("told-at-startup", "client %s established %s=%r but was told %r" % (name, k, est[k][:80], (st["S"].get(k) or "")[:80]), c["flags"]))
+            if k not in sent_keys and st["S"].get(k) not in [sn.get(k) for sn in snapshots]:
+                probs.append(("told-at-startup", "client %s did not send %s and was told %r, which no server of the pool reported at its startup" % (name, k, (st["S"].get(k) or "")[:80]), c["flags"]))
         c["_est"] = est
     # walk all client messages in the order they reached a backend
     sent = scn.sent_sql()
@@ -541,7 +628,7 @@ def monitors(scn, obs):
             n += 1
         ep[conn] = (name, n)
         if name.startswith("z"):
-            est, flags = dict(POOL_DEFAULT), set()
+            est, flags = {k: (obs.startup.get(name) or {"S": POOL_DEFAULT})["S"].get(k) for k in TRACKED}, set()
         else:
             c = next(x for x in scn.clients if x["name"] == name)
             est, flags = c.get("_est"), c["flags"]
@@ -585,6 +672,23 @@ def monitors(scn, obs):
 
 
 # ----------------------------------------------------------------------------- model side
+def find_pool_source(scn, obs):
+    """the server connection whose startup reports became the pool's snapshot (pool.rs validate: the server validated
+    last wins), read back from what the clients were told: the first server consistent with EVERY client's startup frames"""
+    for bi, b in enumerate(scn.backends):
+        rep = dict(conn_reports(b["params"], 1))
+        rep["application_name"] = "pgcat"
+        ok = True
+        for c in scn.clients:
+            st = obs.startup.get(c["name"])
+            if st and st["ok"]:
+                sent = {LOWER2CANON.get(k.decode("latin1").lower()) for k, _ in c["pairs"]}
+                ok = ok and set(st["S"]) == set(rep) and all(st["S"].get(k) == v for k, v in rep.items() if k not in sent)
+        if ok:
+            return 100 * bi
+    return 0
+
+
 def model_ops(scn, obs):
     ops = []
     cnt = {}
@@ -601,12 +705,22 @@ def model_ops(scn, obs):
             ops.append("OQuery %d %d [%s]" % (ci, s, "; ".join(x["m"] for x in op[2])))
         else:
             ops.append("ODisconnect %d" % ci)
-    for i in range(scn.pool_size):
+    for i in range(scn.ncanary):
         zi = len(scn.clients) + i
         it = obs.msgs.get(("z%d" % i, 0))
         ops.append("OConnect %d [(%s, %s); (%s, %s)]" % (zi, cb(b"user"), cb(b"u"), cb(b"database"), cb(b"db")))
         ops.append("OQuery %d %d [SBegin]" % (zi, (it["conn"] - 1) if it else 0))
-    return "%s [%s]" % ("run_mock_sc" if scn.mode == "session" else "run_mock_c", "; ".join(ops))
+    opl = "[%s]" % "; ".join(ops)
+    if not scn.het:
+        return "%s %s" % ("run_mock_sc" if scn.mode == "session" else "run_mock_c", opl)
+    defs = []
+    for bi, b in enumerate(scn.backends):
+        for conn in range(1, 2 * scn.pool_size + 3):
+            rep = dict(conn_reports(b["params"], conn))
+            rep["application_name"] = "pgcat"
+            order = [k for k, _ in conn_reports(b["params"], conn)]
+            defs.append("(%d%%nat, [%s])" % (100 * bi + conn - 1, "; ".join("(%s, %s)" % (cb(k.encode()), cb(rep[k].encode())) for k in order)))
+    return "run_het_c [%s] %d%%nat %s %s" % ("; ".join(defs), find_pool_source(scn, obs), "true" if scn.mode == "session" else "false", opl)
 
 
 def bs(x):
@@ -621,7 +735,7 @@ def project_model(scn, val):
     """model log (compact form) -> (per-client view, per-server view) in the vocabulary of Obs"""
     tbl, log = vlib.parse_coq(val)
     tbl = [bs(x) for x in tbl]
-    names = [c["name"] for c in scn.clients] + ["z%d" % i for i in range(scn.pool_size)]
+    names = [c["name"] for c in scn.clients] + ["z%d" % i for i in range(scn.ncanary)]
     percl = {n: {"startup": None, "msgs": []} for n in names}
     persrv = {}
     for e in log:
@@ -751,9 +865,10 @@ def boundary_scenarios(rng):
     """hand-made scenarios run in every tier (seed-independent shapes)"""
     out = []
 
-    def mk(pool_size, clients, ops, mode="transaction"):
+    def mk(pool_size, clients, ops, mode="transaction", backends=None):
         s = Scn.__new__(Scn)
         s.pool_size, s.rng, s.maxlen, s.flags, s.ops, s.mode = pool_size, rng, 3000, set(), [], mode
+        s.backends = backends or [{"name": "b0", "params": None}]
         s.clients = [{"name": "c%d" % i, "pairs": [(b"user", b"u"), (b"database", b"db")] + p, "flags": set(f), "alive": True, "txn": "I", "n": 0}
                      for i, (p, f) in enumerate(clients)]
         for o in ops:
@@ -837,6 +952,24 @@ def boundary_scenarios(rng):
     for v in [NASTY[1], NASTY[3], NONASCII[4], b""]:
         out.append(mk(1, [([(b"application_name", v), (b"Timezone", v)], []), ([], [])],
                       [sel, sel, ("x", 0, "X"), ("q", 1, ["select"]), ("q", 1, [("set", "DateStyle", v, False)]), ("q", 1, ["select"]), ("x", 1, "X")], mode=S))
+    # heterogeneous servers (primary + replica, default_role any, pool_size 2): read-only reports differ / tracked defaults differ
+    RO = [{"name": "b0", "params": {"readonly": {"server_version": "15.3"}, "by_conn": {"2": {"readonly": {"server_version": "15.4"}}}}},
+          {"name": "b1", "params": {"readonly": {"server_version": "14.9", "in_hot_standby": "on", "is_superuser": "on"}}}]
+    DF = [{"name": "b0", "params": {"defaults": {"TimeZone": "Europe/Berlin", "standard_conforming_strings": "off"}}},
+          {"name": "b1", "params": {"defaults": {"DateStyle": "SQL, DMY", "client_encoding": "LATIN1"}, "by_conn": {"2": {"defaults": {"TimeZone": "Asia/Tokyo"}}}}}]
+    BO = [{"name": "b0", "params": {"readonly": {"server_version": "16.1", "session_authorization": "u0"}, "defaults": {"TimeZone": "Europe/Berlin"}}},
+          {"name": "b1", "params": {"readonly": {"server_version": "13.14", "in_hot_standby": "on"}, "defaults": {"DateStyle": "German, DMY", "IntervalStyle": "iso_8601"}}}]
+    for bk in (RO, DF, BO):
+        for md in ("transaction", S):
+            ops = []
+            for r in range(5):
+                ops += [("q", 0, ["select"]), ("q", 1, ["select"])]
+            ops += [("q", 0, [("set", "TimeZone", b"it's\\here", False)]), ("q", 1, [("set", "statement_timeout", b"9", False)])]
+            for r in range(4):
+                ops += [("q", 1, ["select"]), ("q", 0, ["select"])]
+            ops += [("q", 0, ["begin"]), ("q", 0, [("set", "DateStyle", b"in txn", False)]), ("q", 1, ["select"]), ("q", 0, ["rollback"]), ("q", 1, ["resetall"]), ("q", 0, ["select"])]
+            ops += [("x", 0, "X"), ("x", 1, "close")]
+            out.append(mk(2, [([(b"application_name", b"app'a"), (b"TimeZone", b"Europe/Paris")], []), ([(b"datestyle", b"ISO, YMD")], [])], ops, mode=md, backends=bk))
     # D4 (open): a refused startup value defeats the whole sync
     out.append(mk(1, [([(b"application_name", b"app-a")], []), ([(b"application_name", b"app-b"), (b"client_encoding", b"!invalid!LATIN9X")], ["C12-D4-invalid-startup-value"])],
                   [("q", 0, ["begin"]), ("q", 0, [("set", "TimeZone", b"Europe/Paris", False)]), ("q", 0, ["commit"]), ("q", 1, ["select"]), ("q", 0, ["select"])]))
@@ -887,7 +1020,7 @@ def check(run):
         "coq/Params/Lex.v transcribes PostgreSQL's scan.l string-literal rules ('' ; backslash escapes in E'' and when standard_conforming_strings=off; \\u/\\U and literal continuation across newlines not modelled) - exercised against the mock backend's own lexer (harness/src/mockpg.rs parse_value) and an independent Python lexer, not against a real PostgreSQL",
         "the backend model (session/local/snapshot GUC layers, ParameterStatus on every change of a reported GUC, RESET ALL, failed-transaction rule, atomic SET batch, abstract validity check) = harness/src/mockpg.rs; PostgreSQL >= 14 defers ParameterStatus to the end of the message, which yields the same maps at ReadyForQuery",
         "values are C strings (NUL-free) and valid UTF-8 (Rust String; read_string is lossy for other bytes, which PostgreSQL never reports for these five GUCs)",
-        "transaction-mode and session-mode pools (the mode is a per-client flag of the model), cleanup_server_connections = true, one pool per scenario; prepared-statement cleanup is not modelled",
+        "transaction-mode and session-mode pools (the mode is a per-client flag of the model), cleanup_server_connections = true, one pool per scenario (one server, or primary + replica whose startup reports differ: per-connection defaults [bdefs] in the model); prepared-statement cleanup is not modelled",
         "C02's hand-off rule (a connection returned without check-in while in a transaction or flagged is closed) is a hypothesis of the theorems (hb), shown necessary by c12_hb_needed_refuted",
     ]
     run.cov["trusted_base"] = ["coqc 8.16.1 kernel", "vm_compute", "coq/Params/Lex.v (hand transcription of scan.l's literal rules)",
@@ -917,7 +1050,10 @@ def check(run):
         nc = rng.choice([2, 2, 3])
         with_class = rng.random() < 0.12
         mode = "session" if rng.random() < 0.35 else "transaction"
-        scns.append(Scn(rng, ps, nc, rng.randint(6, 16), classes if with_class else (), maxlen=1500 if i % 53 == 7 else 400, mode=mode))
+        bk = None
+        if rng.random() < 0.3:
+            bk, ps = gen_backends(rng, rng.choice(["readonly", "defaults", "both"])), 2
+        scns.append(Scn(rng, ps, nc, rng.randint(6, 16) + (6 if bk else 0), classes if with_class else (), maxlen=1500 if i % 53 == 7 else 400, mode=mode, backends=bk))
     run.log("%d scenarios (%d hand-made)" % (len(scns), nb))
 
     evals = 0
@@ -941,6 +1077,10 @@ def check(run):
             evals += 1
             dist["pool_size_%d" % s.pool_size] += 1
             dist["pool_mode_" + s.mode] = dist.get("pool_mode_" + s.mode, 0) + 1
+            if s.het:
+                dist["heterogeneous_two_server_pools"] = dist.get("heterogeneous_two_server_pools", 0) + 1
+                used = {it["conn"] // 100 for it in o.order}
+                dist["het_scenarios_touching_both_servers"] = dist.get("het_scenarios_touching_both_servers", 0) + (len(used) > 1)
             if s.flags:
                 dist["scenarios_with_known_class"] += 1
             for st in o.startup.values():
@@ -985,9 +1125,9 @@ def check(run):
     run.cov["evaluations"] = evals
     run.cov["distinct_nontrivial"] = len(distinct)
     run.cov["rule"] = ("scenarios = %d hand-made (every value of the nasty list as startup value and through SET on one shared connection; scs=off together with a backslash value; "
-                       "SET in committed / rolled-back / failed transactions; SET LOCAL; disconnect inside a transaction; untracked GUCs; COMMIT;SET in one message; regressions of the repaired startup findings "
+                       "SET in committed / rolled-back / failed transactions; SET LOCAL; disconnect inside a transaction; untracked GUCs; COMMIT;SET in one message; session-mode pools; heterogeneous two-server pools (read-only reports / tracked defaults / both, per-connection differences); regressions of the repaired startup findings "
                        "D1-D3 (non-ASCII / any-case names / empty values at startup); the open finding D4) "
-                       "+ %d seeded random (2-3 clients, pool_size 1 or 2, pool_mode transaction (65%%) or session (35%%), 6-16 messages of 1-3 statements, startup sets over the five keys in any ASCII case incl. empty and non-ASCII values, values: words, quotes, backslashes, comment and "
+                       "+ %d seeded random (2-3 clients, pool_size 1 or 2; 30%% on a two-server pool (primary + replica, default_role any, pool_size 2) whose servers / connections report different read-only parameters and/or different defaults of tracked GUCs, the mock refusing SET of read-only parameters with 55P02; pool_mode transaction (65%%) or session (35%%), 6-16 messages of 1-3 statements, startup sets over the five keys in any ASCII case incl. empty and non-ASCII values, values: words, quotes, backslashes, comment and "
                        "dollar markers, newlines, non-ASCII UTF-8, empty, up to 1.5 kB; 20 kB in a hand-made one). distinct = distinct (statement shape, backend tracked values) and (key, value) pairs seen in SET batches" % (nb, nrand))
     run.cov["samples"] = samples[:4]
     run.cov["input_distribution"] = dist
